@@ -19,7 +19,7 @@ TInit == Init /\ l = 1 /\ ph = "act" /\ progs = <<>> /\ TLCSet(1, 1) /\ TLCSet(4
 
 RootKey == <<0, RootId(progs[1])>>
 
-ResetC == /\ cmds' = <<>> /\ tasks' = <<>> /\ ready' = {} /\ run' = NONE /\ reqs' = <<>> /\ joinreg' = <<>>
+ResetC == /\ cmds' = <<>> /\ tasks' = <<>> /\ ready' = {} /\ run' = NONE /\ reqs' = NoReqs /\ joinreg' = <<>>
           /\ rq' = <<>> /\ sq' = <<>>
 
 \* events of one task appear in the order the task emitted them
